@@ -10,7 +10,7 @@ from ..kernelcases import DTYPES, MIN_INT, encode_values, mask_token
 
 PID = "C09"
 MODULES = ["GroupbyVerif.Props.C09", "GroupbyVerif.LoopBridge.Rolling"]
-RULE = ("seeded random interleavings of <= 3 groups with null codes/keys x window 1..5 x min_periods 1..window (and the boundary value 0) x null placements x boolean masks x "
+RULE = ("seeded random interleavings of <= 3 groups with null codes/keys x window 1..5 (plus windows 17 / 130 / 200 over 3-14 windows of rows) x min_periods 1..window (and the boundary value 0) x null placements x boolean masks x "
         "value dtype classes f64 f32 i32 i64(small) M8[ns] with sub-microsecond digits m8[s] x {rolling sum, mean, min, max, shift, diff} at the kernel "
         "level (numba.rolling_*) and through GroupBy.rolling_*/shift/diff with both index_by_groups settings; boundary windows 32767/32768/40000 with a "
         "longer group in both tiers; exhaustive <= 6 rows, <= 2 groups, window <= 3 in the thorough tier; non-trivial = a group with > window selected rows; "
@@ -53,6 +53,16 @@ def gen_cases(tier, rng):
     for w in (32767, 32768, 40000):
         for op in ("sum", "max", "shift"):
             yield dict(level="kernel", op=op, dt="f64", window=w, minp=1, big=w + 5, ng=1, codes=None, vals=None, mask=None, by_groups=False)
+    # windows well beyond the handful of rows of the random cases (a shortcut that only engages for long windows must
+    # still evict the extremum when it leaves the window): two interleaved groups, non-monotone values, some nulls
+    for w in (17, 130, 200):
+        for op in ("max", "min", "sum", "mean", "shift"):
+            # many windows of rows per group: a stale extremum needs the best value to leave the window unnoticed
+            L = (14 if op in ("max", "min") else 3) * w + rng.randint(5, 40)
+            codes = [rng.choice([0, 0, 1, 1, 1, -1]) if rng.random() < 0.97 else -1 for _ in range(L)]
+            vals = [None if rng.random() < 0.05 else rng.randint(-1_000_000, 1_000_000) for _ in range(L)]
+            yield dict(level=rng.choice(["kernel", "public"]), op=op, dt="f64", window=w, minp=rng.choice([1, w // 2]), codes=codes,
+                       vals=vals, mask=None, ng=2, by_groups=False, container="ndarray")
     n = 3000 if tier == "quick" else 80000
     for _ in range(n):
         L = rng.randint(0, 14)
